@@ -179,17 +179,17 @@ func (bav3pr builtAsciiVector3PropertyReader) ClaimsProperty(prop Property) bool
 }
 
 func (bav3pr builtAsciiVector3PropertyReader) Read(buf []string, i int64) error {
-	xParsed, err := strconv.ParseFloat(buf[bav3pr.xOffset], 32)
+	xParsed, err := strconv.ParseFloat(buf[bav3pr.xOffset], 64)
 	if err != nil {
 		return err
 	}
 
-	yParsed, err := strconv.ParseFloat(buf[bav3pr.yOffset], 32)
+	yParsed, err := strconv.ParseFloat(buf[bav3pr.yOffset], 64)
 	if err != nil {
 		return err
 	}
 
-	zParsed, err := strconv.ParseFloat(buf[bav3pr.zOffset], 32)
+	zParsed, err := strconv.ParseFloat(buf[bav3pr.zOffset], 64)
 	if err != nil {
 		return err
 	}
